@@ -205,7 +205,7 @@ func runC07(w *World) *Result {
 	r.Rule("R-C07-lookup", "references are built on the found-branch of the lookup and carry the looked-up definition", 5)
 	r.Rule("R-C07-decl", "newness test before each declaration; names of one statement tested against each other", 4)
 	r.Rule("R-C07-place", "break/continue/return/func placement queries; scope constants per construct; final return", 8)
-	r.Rule("R-C07-public", "only public definitions are imported", 2)
+	r.Rule("R-C07-public", "only public definitions are imported; public = first rune upper case (one predicate feeds every flag)", 3)
 	cf, err := buildCtxFacts(w)
 	if err != nil {
 		r.Bad("R-C07-clone", "context:facts", "-", err.Error())
@@ -1067,9 +1067,9 @@ func runC09(w *World) *Result {
 	r.Explanation = "Decides structural conditions of linking and dead-function removal (SSA over the parser): (edge) the call node is built at one site that records the callee's emitted name under the current function key before the node exists; the key is set before a function body is parsed and reset afterwards; the clean-up removes only function definitions whose name is absent from the closure computed from the top-level key; (merge) when the call graph of an imported file is merged, membership is tested against the destination list while ranging over the incoming list (a membership test of an element in the list it is ranged from is vacuous); (prefix) the namespace prefix is the first component of emitted shell identifiers and must therefore start with a letter or underscore for every file content; (public) only public definitions are imported and alias lookups are tested."
 	r.NotDecided = "behaviour of diamonds / repeated aliases at run time (duplicate top-level statements of a file reached twice)."
 	r.Rule("R-C09-edge", "call edges recorded at the single construction site of call nodes; key set/reset around bodies; removal keyed by the closure", 3)
-	r.Rule("R-C09-merge", "no vacuous membership test (element tested against the list it ranges over)", 1)
+	r.Rule("R-C09-merge", "merging call edges: no vacuous membership test (element tested against the list it ranges over); a map entry extended in a loop extends its current value", 2)
 	r.Rule("R-C09-prefix", "namespace prefix starts with a letter or underscore for all contents", 1)
-	r.Rule("R-C09-public", "only public definitions are imported", 2)
+	r.Rule("R-C09-public", "only public definitions are imported; public = first rune upper case (one predicate feeds every flag)", 3)
 	cf, err := buildCtxFacts(w)
 	if err != nil {
 		r.Bad("R-C09-edge", "context:facts", "-", err.Error())
